@@ -163,6 +163,12 @@ def corr_pipeline(ctx):
         if diff == "F8":
             ctx.count("known.F8")
             continue
+        if isinstance(diff, dict) and "theorem_hypothesis_fails" in diff and "F19" in getattr(case, "regs", ()):
+            # known finding F19: a derived factor over a complex derived factor is mis-encoded - its Derivation
+            # index lists name variables that are not the dependency's (often not design variables at all), which
+            # is exactly what the hypothesis `seqOk` (derivations mention design variables only) rejects
+            ctx.count("known.F19")
+            continue
         if diff is not None:
             ctx.corr_break("I8.pipeline", req, OD.sample_desc(case), diff)
             if len(ctx.corr_breaks) > 3:
